@@ -14,11 +14,11 @@ XS = I.XS
 
 NS_MODES = ["none", "prefixed-x", "default-x", "inherit", "rebind-x-to-y", "prefixed-y", "undeclare-default"]
 NAMES = ["a", "b"]
-ATTRS = ["none", "plain", "namespaced", "qname-valued", "xsi-type-int", "two"]
+ATTRS = ["none", "plain", "namespaced", "qname-valued", "xsi-type-int", "two", "qname-valued-inherited-x"]
 TEXTS = [None, "t", " ", " t\n", "a&<b"]
 
 
-def gen(ch: Chooser, max_elems: int, max_depth: int = 3, attrs=ATTRS, texts=TEXTS, ns_modes=NS_MODES, tails=True) -> I.El:
+def gen(ch: Chooser, max_elems: int, max_depth: int = 3, attrs=ATTRS, texts=TEXTS, ns_modes=NS_MODES, tails=True, seeds=True) -> I.El:
     count = [1]
 
     def node(depth: int, scope: dict, is_root: bool, tag: str) -> I.El:
@@ -67,6 +67,10 @@ def gen(ch: Chooser, max_elems: int, max_depth: int = 3, attrs=ATTRS, texts=TEXT
                     el.nsdecls["x"] = X
                     sc["x"] = X
             el.attrs.append((f"{p}:j", "1"))
+        if a == "qname-valued-inherited-x":
+            # uses whatever "x" is bound to here, without re-declaring it
+            if sc.get("x"):
+                el.attrs.append(("q", "x:val"))
         if a == "qname-valued":
             if sc.get("y") != Y:
                 el.nsdecls["y"] = Y
@@ -94,7 +98,16 @@ def gen(ch: Chooser, max_elems: int, max_depth: int = 3, attrs=ATTRS, texts=TEXT
                         el.kids.append(tl)
         return el
 
-    root = node(1, {}, True, "n")
+    seed = ch.choose(2, "seed", free=True) if seeds else 0
+    if seed == 0:
+        return node(1, {}, True, "n")
+    # seed 1: a root that declares x and y with two children, so that scoping faults (a declaration leaking to a
+    # later sibling, a re-binding not undone) are within two deviations
+    root = I.El("r", {"x": X, "y": Y}, [], [])
+    count[0] = 3
+    sc = {"x": X, "y": Y, "__parent_prefix__": ""}
+    for i in range(2):
+        root.kids.append(node(2, sc, False, f"s{i}"))
     return root
 
 
